@@ -1,1 +1,272 @@
 // Kani contract harnesses for /repo/arrow-arith/src/arity.rs (child module: sees private items via super::)
+//
+// Null handling of the arity kernels on Int32Array (C02: results depend only on logical content; C12:
+// null slots never contribute to results or errors, results are null exactly where an input is null).
+// Grid rule: the length is concrete per harness (3 rows); values, validity bits, the payload under
+// null slots and the parameters of the operation are symbolic; presence of a validity buffer is a
+// const parameter (one harness per combination).  The operation is a solver-chosen PARTIAL function
+// (fails on one symbolic "bad" input), so a hidden value under a null slot would flip Ok/Err or the
+// output if the kernel ever looked at it.
+// Forget rule: every PrimitiveArray / Result is mem::forget-ed.  Stubs: alloc::fmt::format.
+// Not covered (cut): unary_mut / try_unary_mut / binary_mut / try_binary_mut (go through
+// PrimitiveBuilder::finish / ArrayData - measured out of reach in DESIGN section 3), empty inputs
+// (ArrayData::new_empty), dictionary / run-end accessors of try_binary.
+use super::*;
+use arrow_array::types::Int32Type;
+use arrow_buffer::{BooleanBuffer, Buffer, ScalarBuffer};
+#[path = "/verif/kani/support/spec.rs"]
+mod spec;
+use spec::*;
+
+const N: usize = 3;
+
+/// Int32Array of N rows; validity buffer present iff `has_nulls`, bit k of `valid` = row k is valid
+fn mk(vals: [i32; N], has_nulls: bool, valid: u8) -> Int32Array {
+    let nulls = if has_nulls { Some(NullBuffer::new(BooleanBuffer::new(Buffer::from_slice_ref(&[valid]), 0, N))) } else { None };
+    Int32Array::new(ScalarBuffer::from(vals.to_vec()), nulls)
+}
+fn is_valid(has_nulls: bool, valid: u8, k: usize) -> bool { !has_nulls || (valid >> k) & 1 == 1 }
+
+// Contract (C02, C12): try_unary(array, op) on a 3-row Int32Array, op(x) = Err if x = bad else
+// Ok(x + delta mod 2^32) with symbolic bad, delta:  Err <=> some VALID row holds `bad` (a `bad` hidden
+// under a null slot is never seen);  Ok(out): out has 3 rows, row k is null <=> input row k is null,
+// and every valid row holds op(value) - for every content of the null slots.
+fn try_unary_case<const HAS: bool>() {
+    let vals: [i32; N] = kani::any();
+    let valid: u8 = kani::any();
+    let (bad, delta): (i32, i32) = (kani::any(), kani::any());
+    let arr = mk(vals, HAS, valid);
+    let r = try_unary::<Int32Type, _, Int32Type>(&arr, |x| if x == bad { Err(ArrowError::DivideByZero) } else { Ok(x.wrapping_add(delta)) });
+    let mut hit = false;
+    let mut hidden = false;
+    for k in 0..N {
+        if vals[k] == bad { if is_valid(HAS, valid, k) { hit = true; } else { hidden = true; } }
+    }
+    match &r {
+        Ok(o) => {
+            assert!(!hit && o.len() == N);
+            for k in 0..N {
+                assert!(o.is_valid(k) == is_valid(HAS, valid, k));
+                if o.is_valid(k) { assert!(o.value(k) == vals[k].wrapping_add(delta)); }
+            }
+        }
+        Err(_) => assert!(hit),
+    }
+    kani::cover!(hit);
+    kani::cover!(!hit && (hidden || !HAS)); // a failing input hidden under a null slot: still Ok
+    kani::cover!(r.is_ok() && HAS && valid & 7 == 0b101);
+    std::mem::forget(r);
+    std::mem::forget(arr);
+}
+// @unit name=try_unary_nulls props=C02,C12 kind=bounded bound=len=3_Int32_validity_buffer_present fns=try_unary,PrimitiveArray::try_unary mem=4 timeout=900 tier=thorough was_quick=1 confirmed=0
+#[kani::proof]
+#[kani::unwind(5)]
+#[kani::stub(alloc::fmt::format, stub_format)]
+fn try_unary_nulls() { try_unary_case::<true>() }
+// @unit name=try_unary_no_nulls props=C02,C12 kind=bounded bound=len=3_Int32_no_validity_buffer fns=try_unary,PrimitiveArray::try_unary mem=4 timeout=900 tier=thorough was_quick=1 confirmed=0
+#[kani::proof]
+#[kani::unwind(5)]
+#[kani::stub(alloc::fmt::format, stub_format)]
+fn try_unary_no_nulls() { try_unary_case::<false>() }
+
+// Contract (C02, C12): unary(array, op) with an infallible op(x) = x * 3 + delta mod 2^32: out has 3
+// rows, row k null <=> input row k null, every valid row holds op(value) - whatever lies under nulls.
+fn unary_case<const HAS: bool>() {
+    let vals: [i32; N] = kani::any();
+    let valid: u8 = kani::any();
+    let delta: i32 = kani::any();
+    let arr = mk(vals, HAS, valid);
+    let o = unary::<Int32Type, _, Int32Type>(&arr, |x| x.wrapping_mul(3).wrapping_add(delta));
+    assert!(o.len() == N);
+    for k in 0..N {
+        assert!(o.is_valid(k) == is_valid(HAS, valid, k));
+        if o.is_valid(k) { assert!(o.value(k) == vals[k].wrapping_mul(3).wrapping_add(delta)); }
+    }
+    kani::cover!(HAS && valid & 7 == 0b010);
+    kani::cover!(!HAS || valid & 7 == 7);
+    std::mem::forget(o);
+    std::mem::forget(arr);
+}
+// @unit name=unary_nulls props=C02,C12 kind=bounded bound=len=3_Int32_validity_buffer_present fns=unary,PrimitiveArray::unary mem=4 timeout=900 tier=thorough was_quick=1 confirmed=0
+#[kani::proof]
+#[kani::unwind(5)]
+fn unary_nulls() { unary_case::<true>() }
+// @unit name=unary_no_nulls props=C02,C12 kind=bounded bound=len=3_Int32_no_validity_buffer fns=unary,PrimitiveArray::unary mem=4 timeout=900 tier=thorough was_quick=1 confirmed=0
+#[kani::proof]
+#[kani::unwind(5)]
+fn unary_no_nulls() { unary_case::<false>() }
+
+// Contract (C02, C12): binary(a, b, op) on two 3-row Int32Arrays with op(l, r) = l - 2*r mod 2^32
+// (not symmetric: a swapped operand is visible): Ok(out), out has 3 rows, row k null <=> a[k] null or
+// b[k] null, every other row holds op(a[k], b[k]); contents under null slots are irrelevant.
+// Different lengths => Err (checked in binary_len_mismatch).
+fn binary_case<const AH: bool, const BH: bool>() {
+    let (av, bv): ([i32; N], [i32; N]) = (kani::any(), kani::any());
+    let (am, bm): (u8, u8) = (kani::any(), kani::any());
+    let (a, b) = (mk(av, AH, am), mk(bv, BH, bm));
+    let r = binary::<Int32Type, Int32Type, _, Int32Type>(&a, &b, |l, r| l.wrapping_sub(r.wrapping_mul(2)));
+    match &r {
+        Ok(o) => {
+            assert!(o.len() == N);
+            for k in 0..N {
+                let both = is_valid(AH, am, k) && is_valid(BH, bm, k);
+                assert!(o.is_valid(k) == both);
+                if both { assert!(o.value(k) == av[k].wrapping_sub(bv[k].wrapping_mul(2))); }
+            }
+        }
+        Err(_) => assert!(false),
+    }
+    kani::cover!(!(AH && BH) || (am & 7 == 0b110 && bm & 7 == 0b011));
+    kani::cover!(AH || BH || r.is_ok());
+    std::mem::forget(r);
+    std::mem::forget(a);
+    std::mem::forget(b);
+}
+// @unit name=binary_nulls_both props=C02,C12 kind=bounded bound=len=3_Int32_both_validity_buffers fns=binary mem=4 timeout=900 tier=thorough was_quick=1 confirmed=0
+#[kani::proof]
+#[kani::unwind(5)]
+#[kani::stub(alloc::fmt::format, stub_format)]
+fn binary_nulls_both() { binary_case::<true, true>() }
+// @unit name=binary_nulls_right props=C02,C12 kind=bounded bound=len=3_Int32_only_right_validity_buffer fns=binary mem=4 timeout=900 tier=thorough was_quick=1 confirmed=0
+#[kani::proof]
+#[kani::unwind(5)]
+#[kani::stub(alloc::fmt::format, stub_format)]
+fn binary_nulls_right() { binary_case::<false, true>() }
+// @unit name=binary_no_nulls props=C02,C12 kind=bounded bound=len=3_Int32_no_validity_buffers fns=binary mem=4 timeout=900 tier=thorough was_quick=1 confirmed=0
+#[kani::proof]
+#[kani::unwind(5)]
+#[kani::stub(alloc::fmt::format, stub_format)]
+fn binary_no_nulls() { binary_case::<false, false>() }
+
+// Contract (C02, C12): try_binary(&a, &b, op) on two 3-row Int32Arrays, op(l, r) = Err if l + r = bad
+// (mod 2^32) else Ok(l - 2*r):  Err <=> op fails on some row where BOTH inputs are valid (pairs with a
+// null on either side are never evaluated);  Ok(out): 3 rows, row k null <=> a[k] or b[k] null, other
+// rows hold op(a[k], b[k]).  Without any validity buffer this is try_binary_no_nulls.
+fn try_binary_case<const AH: bool, const BH: bool>() {
+    let (av, bv): ([i32; N], [i32; N]) = (kani::any(), kani::any());
+    let (am, bm): (u8, u8) = (kani::any(), kani::any());
+    let bad: i32 = kani::any();
+    let (a, b) = (mk(av, AH, am), mk(bv, BH, bm));
+    let r = try_binary::<_, _, _, Int32Type>(&a, &b, |l: i32, r: i32| {
+        if l.wrapping_add(r) == bad { Err(ArrowError::DivideByZero) } else { Ok(l.wrapping_sub(r.wrapping_mul(2))) }
+    });
+    let (mut hit, mut hidden) = (false, false);
+    for k in 0..N {
+        if av[k].wrapping_add(bv[k]) == bad {
+            if is_valid(AH, am, k) && is_valid(BH, bm, k) { hit = true; } else { hidden = true; }
+        }
+    }
+    match &r {
+        Ok(o) => {
+            assert!(!hit && o.len() == N);
+            for k in 0..N {
+                let both = is_valid(AH, am, k) && is_valid(BH, bm, k);
+                assert!(o.is_valid(k) == both);
+                if both { assert!(o.value(k) == av[k].wrapping_sub(bv[k].wrapping_mul(2))); }
+            }
+        }
+        Err(_) => assert!(hit),
+    }
+    kani::cover!(hit);
+    kani::cover!(!hit && (hidden || !(AH || BH)));
+    std::mem::forget(r);
+    std::mem::forget(a);
+    std::mem::forget(b);
+}
+// @unit name=try_binary_nulls_both props=C02,C12 kind=bounded bound=len=3_Int32_both_validity_buffers fns=try_binary mem=4 timeout=900 tier=thorough was_quick=1 confirmed=0
+#[kani::proof]
+#[kani::unwind(5)]
+#[kani::stub(alloc::fmt::format, stub_format)]
+fn try_binary_nulls_both() { try_binary_case::<true, true>() }
+// @unit name=try_binary_nulls_left props=C02,C12 kind=bounded bound=len=3_Int32_only_left_validity_buffer fns=try_binary mem=4 timeout=900 tier=thorough was_quick=1 confirmed=0
+#[kani::proof]
+#[kani::unwind(5)]
+#[kani::stub(alloc::fmt::format, stub_format)]
+fn try_binary_nulls_left() { try_binary_case::<true, false>() }
+// @unit name=try_binary_no_nulls_path props=C02,C12 kind=bounded bound=len=3_Int32_no_validity_buffers fns=try_binary,try_binary_no_nulls mem=4 timeout=900 tier=thorough was_quick=1 confirmed=0
+#[kani::proof]
+#[kani::unwind(5)]
+#[kani::stub(alloc::fmt::format, stub_format)]
+fn try_binary_no_nulls_path() { try_binary_case::<false, false>() }
+
+// Contract (C12): binary and try_binary on arrays of different lengths (3 and 2 rows) return Err and
+// never evaluate the operation.
+// @unit name=binary_len_mismatch props=C12 kind=bounded bound=len=3_vs_len=2 fns=binary,try_binary mem=4 timeout=900 tier=thorough was_quick=1 confirmed=0
+#[kani::proof]
+#[kani::unwind(5)]
+#[kani::stub(alloc::fmt::format, stub_format)]
+fn binary_len_mismatch() {
+    let av: [i32; 3] = kani::any();
+    let bv: [i32; 2] = kani::any();
+    let a = Int32Array::new(ScalarBuffer::from(av.to_vec()), None);
+    let b = Int32Array::new(ScalarBuffer::from(bv.to_vec()), None);
+    let r1 = binary::<Int32Type, Int32Type, _, Int32Type>(&a, &b, |_, _| -> i32 { panic!("op evaluated") });
+    let r2 = try_binary::<_, _, _, Int32Type>(&a, &b, |_: i32, _: i32| -> Result<i32, ArrowError> { panic!("op evaluated") });
+    assert!(r1.is_err() && r2.is_err());
+    kani::cover!(r1.is_err());
+    std::mem::forget((r1, r2, a, b));
+}
+
+// ------------------------------------------------------------------------------------------------
+// Sliced operands: values start at a concrete ELEMENT offset inside a longer buffer and the validity
+// bitmap at its own concrete BIT offset, different on the two sides (grid rule).  Catches an offset
+// applied to the wrong operand / wrong buffer.
+// ------------------------------------------------------------------------------------------------
+const M: usize = 6;
+fn mk_sliced(vals: [i32; M], voff: usize, valid: u8, noff: usize) -> Int32Array {
+    let values = ScalarBuffer::<i32>::new(Buffer::from_vec(vals.to_vec()), voff, N);
+    let nulls = NullBuffer::new(BooleanBuffer::new(Buffer::from_slice_ref(&[valid]), noff, N));
+    Int32Array::new(values, Some(nulls))
+}
+// Contract (C02, C12): binary and try_binary on 3-row Int32Arrays that are windows into 6-element
+// buffers: left values at element offset 2 / validity at bit 1, right values at element offset 1 /
+// validity at bit 4.  Per row k: null <=> left row or right row null (bits noff + k), otherwise
+// op(left[voff_l + k], right[voff_r + k]); try_binary fails <=> op fails on a row valid on both sides.
+// Elements and bits outside the windows never matter.
+// @unit name=binary_sliced props=C02,C12 kind=bounded bound=len=3_Int32_windows_at_offsets_l(2,1)_r(1,4)_both_validity_buffers fns=binary,try_binary mem=4 timeout=1500 tier=thorough was_quick=1 confirmed=0
+#[kani::proof]
+#[kani::unwind(8)]
+#[kani::stub(alloc::fmt::format, stub_format)]
+fn binary_sliced() {
+    let (av, bv): ([i32; M], [i32; M]) = (kani::any(), kani::any());
+    let (am, bm): (u8, u8) = (kani::any(), kani::any());
+    let bad: i32 = kani::any();
+    let (a, b) = (mk_sliced(av, 2, am, 1), mk_sliced(bv, 1, bm, 4));
+    let lrow = |k: usize| if (am >> (1 + k)) & 1 == 1 { Some(av[2 + k]) } else { None };
+    let rrow = |k: usize| if (bm >> (4 + k)) & 1 == 1 { Some(bv[1 + k]) } else { None };
+    let r1 = binary::<Int32Type, Int32Type, _, Int32Type>(&a, &b, |l, r| l.wrapping_sub(r.wrapping_mul(2)));
+    let r2 = try_binary::<_, _, _, Int32Type>(&a, &b, |l: i32, r: i32| {
+        if l.wrapping_add(r) == bad { Err(ArrowError::DivideByZero) } else { Ok(l.wrapping_sub(r.wrapping_mul(2))) }
+    });
+    let mut hit = false;
+    for k in 0..N {
+        if let (Some(l), Some(r)) = (lrow(k), rrow(k)) { if l.wrapping_add(r) == bad { hit = true; } }
+    }
+    match &r1 {
+        Ok(o) => {
+            assert!(o.len() == N);
+            for k in 0..N {
+                match (lrow(k), rrow(k)) {
+                    (Some(l), Some(r)) => assert!(o.is_valid(k) && o.value(k) == l.wrapping_sub(r.wrapping_mul(2))),
+                    _ => assert!(o.is_null(k)),
+                }
+            }
+        }
+        Err(_) => assert!(false),
+    }
+    match &r2 {
+        Ok(o) => {
+            assert!(!hit && o.len() == N);
+            for k in 0..N {
+                match (lrow(k), rrow(k)) {
+                    (Some(l), Some(r)) => assert!(o.is_valid(k) && o.value(k) == l.wrapping_sub(r.wrapping_mul(2))),
+                    _ => assert!(o.is_null(k)),
+                }
+            }
+        }
+        Err(_) => assert!(hit),
+    }
+    kani::cover!(hit);
+    kani::cover!(!hit && lrow(0).is_none() && rrow(2).is_none() && lrow(1).is_some() && rrow(1).is_some());
+    std::mem::forget((r1, r2, a, b));
+}
